@@ -131,7 +131,7 @@ impl TxSpec {
     }
 }
 
-fn op_coq(o: &Op) -> String {
+pub(crate) fn op_coq(o: &Op) -> String {
     format!("({}, {})", coq_n(o.0 as u128), coq_n(o.1 as u128))
 }
 fn data_coq(d: &Data) -> String {
@@ -140,7 +140,7 @@ fn data_coq(d: &Data) -> String {
         Data::Group(l) => format!("(DGroup {})", coq_list(l, op_coq)),
     }
 }
-fn tx_coq(t: &TxSpec) -> String {
+pub(crate) fn tx_coq(t: &TxSpec) -> String {
     format!(
         "(mkTx {} {} {} {})",
         coq_list(&t.inputs, op_coq),
@@ -149,7 +149,7 @@ fn tx_coq(t: &TxSpec) -> String {
         coq_n(t.nwit as u128)
     )
 }
-fn cells_coq(cells: &BTreeMap<Op, St>) -> String {
+pub(crate) fn cells_coq(cells: &BTreeMap<Op, St>) -> String {
     let v: Vec<_> = cells.iter().collect();
     coq_list(&v, |(o, s)| {
         format!("({}, {})", op_coq(o), match s { St::Live(d) => format!("Live {}", data_coq(d)), St::Dead => "Dead".into() })
@@ -171,7 +171,7 @@ pub enum RR {
     InvalidHeader(u64),
     OutOfOrder(Op),
 }
-fn classify_err(e: &OutPointError, ids: &Ids) -> RR {
+pub(crate) fn classify_err(e: &OutPointError, ids: &Ids) -> RR {
     match e {
         OutPointError::Dead(o) => RR::Dead(ids.un(o)),
         OutPointError::Unknown(o) => RR::Unknown(ids.un(o)),
@@ -181,11 +181,11 @@ fn classify_err(e: &OutPointError, ids: &Ids) -> RR {
         OutPointError::OutOfOrder(o) => RR::OutOfOrder(ids.un(o)),
     }
 }
-fn classify_ok(r: &ResolvedTransaction, ids: &Ids) -> RR {
+pub(crate) fn classify_ok(r: &ResolvedTransaction, ids: &Ids) -> RR {
     let f = |v: &Vec<CellMeta>| v.iter().map(|m| ids.un(&m.out_point)).collect::<Vec<_>>();
     RR::Ok(f(&r.resolved_inputs), f(&r.resolved_cell_deps), f(&r.resolved_dep_groups))
 }
-fn rtx_coq(a: &[Op], b: &[Op], c: &[Op]) -> String {
+pub(crate) fn rtx_coq(a: &[Op], b: &[Op], c: &[Op]) -> String {
     format!("(mkRtx {} {} {})", coq_list(a, op_coq), coq_list(b, op_coq), coq_list(c, op_coq))
 }
 fn rr_coq(r: &Option<RR>) -> String {
@@ -195,7 +195,7 @@ fn rr_coq(r: &Option<RR>) -> String {
         Some(e) => format!("(Some (Err {}))", err_coq(e)),
     }
 }
-fn err_coq(e: &RR) -> String {
+pub(crate) fn err_coq(e: &RR) -> String {
     match e {
         RR::Dead(o) => format!("(EDead {})", op_coq(o)),
         RR::Unknown(o) => format!("(EUnknown {})", op_coq(o)),
@@ -206,7 +206,7 @@ fn err_coq(e: &RR) -> String {
         RR::Ok(..) => unreachable!(),
     }
 }
-fn rr_class(r: &Option<RR>) -> &'static str {
+pub(crate) fn rr_class(r: &Option<RR>) -> &'static str {
     match r {
         None => "panic",
         Some(RR::Ok(..)) => "ok",
